@@ -48,6 +48,11 @@ class Violation(Exception):
         self.detail = detail
 
 
+def _is_record(x):
+    from chython.containers import MoleculeContainer, ReactionContainer
+    return isinstance(x, (MoleculeContainer, ReactionContainer))
+
+
 def _cls(name):
     import chython
     return getattr(chython, name)
@@ -75,6 +80,10 @@ def reference_write(fmt, records, clock_steps):
             w.write(rec)
         except (ValueError, TypeError) as e:
             continue   # acknowledged refusal; whether what it left behind hurts later records is decided by reading
+        except Exception as e:
+            if _is_record(rec):
+                raise
+            continue   # an object that is no record at all: any refusal will do
         extents.append((start, buf.tell()))
         kept.append(idx)
     footer = buf.tell()
@@ -124,6 +133,12 @@ def simulated_write(fmt, records, wp, simfile, append=False):
             try:
                 w.write(rec)
             except (ValueError, TypeError):
+                continue
+            except (SimCrash, OSError):
+                raise
+            except Exception:
+                if _is_record(rec):
+                    raise
                 continue
             res['written'] += 1
             if fe and (i + 1) % fe == 0 and not tw.closed:
@@ -667,6 +682,8 @@ def _build_all(trace, probes):
         from chython.containers import ReactionContainer
         if isinstance(r, ReactionContainer) and not FORMATS[trace['fmt']]['rxn']:
             continue
+        if spec['k'] == 'bad':
+            probes['bad_records_offered'] += 1
         recs.append(r)
         specs.append(spec)
     return recs
@@ -775,6 +792,10 @@ def _execute(trace, probes, scratch):
                 try:
                     w.write(r)
                 except (ValueError, TypeError):
+                    continue
+                except Exception:
+                    if _is_record(r):
+                        raise
                     continue
                 ext2.append((start + s0, start + buf.tell()))
                 appended.append(r)
@@ -1164,6 +1185,7 @@ def draw_config(rng):
         'mode': rng.choice(['clean', 'clean', 'writefault', 'writefault', 'damage', 'damage', 'readfault', 'indexed']),
         'calc_ct': rng.random() < 0.5,
         'multiline_p': rng.choice([0.0, 0.0, 0.3, 0.6]),
+        'bad_p': rng.choice([0.0, 0.0, 0.0, 0.15]),
     }
 
 
